@@ -352,6 +352,12 @@ def property_anchor_files(pid):
     return []
 
 
+def _fn_key(fn):
+    """a finding is tied to the type and method, not to the (private) module the type lives in"""
+    import re
+    return re.sub(r"\b(?:[a-z_][a-z0-9_]*::)+(?=[A-Z])", "", fn or "")
+
+
 def load_known():
     p = os.path.join(VERIF, "known_findings.json")
     if not os.path.exists(p):
@@ -450,7 +456,7 @@ def main(argv):
     for o in viol:
         hit = None
         for k in known:
-            if k["rule"] == o.rule and k["fn"] == o.fn and k["key"] == o.key:
+            if k["rule"] == o.rule and _fn_key(k["fn"]) == _fn_key(o.fn) and k["key"] == o.key:
                 hit = k
         (known_hit if hit else new_viol).append((o, hit))
 
@@ -511,7 +517,7 @@ def main(argv):
     level = spec["level"]
     coverage = {
         "obligations": len(ctx.obs),
-        "discharged": len(okc) + len(known_hit),
+        "discharged": len(okc),   # an open known finding is not discharged
         "checker_cmd": "./check %s --tier %s" % (pid, tier),
         "trusted_base": sorted(ctx.trusted) + ["rustc name resolution, type check, const evaluation and MIR construction",
                                                 "library summaries of analysis/summaries.py (DESIGN §3.4)"],
